@@ -696,6 +696,8 @@ class HttpRequestParser(HttpParser[RawRequestMessage]):
                 # authority-form,
                 # https://datatracker.ietf.org/doc/html/rfc7230#section-5.3.3
                 url = URL.build(authority=path, encoded=True)
+                # yarl splits the authority lazily; a malformed one must fail here
+                url.host
             elif path.startswith("/"):
                 # origin-form,
                 # https://datatracker.ietf.org/doc/html/rfc7230#section-5.3.1
